@@ -22,7 +22,7 @@ REQUIRED_FAMILIES = ["values", "derivative", "solid", "cart2sph", "chain", "libr
 BUDGET = {"quick": 600, "thorough": 6000}
 RULE = (
     "Post-conditions attached to the five public functions of grid.utils (all bindings, fire on every call incl. the "
-    "internal ones): shape; values == independent normalised recursion sph.ref_Y (abs 1e-11(1+lmax)); recursion and SciPy "
+    "internal ones): shape; values == independent normalised recursion sph.ref_Y (abs 2e-11(1+lmax)); recursion and SciPy "
     "implementation agree; addition theorem on point pairs of the call (P_l by Bonnet recursion in longdouble); derivative "
     "routine == longdouble Chebyshev differentiation of the IMPLEMENTED harmonics in theta (everywhere) and phi (off the "
     "poles) and d/dtheta == -m Y_l,-m of the oracle; solid harmonics == sqrt(4pi/(2l+1)) r^l ref_Y and (z,x,y) for l=1; "
@@ -58,11 +58,14 @@ ORIG = {}
 
 # ---------------------------------------------------------------------------------- tolerances
 def tol_values(lmax):
-    return 1e-11 * (1 + lmax)
+    """DESIGN started from 1e-11 (1+lmax); calibrated: largest discrepancy seen over quick seeds 0-4 / thorough seeds 0-1 is
+    2.3e-11 at lmax = 250 (oracle conditioning next to the poles ~ eps l^2 |Y|), so the constant is doubled to keep 100x."""
+    return 2e-11 * (1 + lmax)
 
 
 def tol_addition(lmax):
-    return 1e-12 * (1 + lmax)
+    """Residual normalised by (2l+1)/(4pi); largest seen 3.6e-12 (SciPy path, lmax = 250)."""
+    return 4e-12 * (1 + lmax)
 
 
 def tol_deriv(lmax, theta, phi):
